@@ -5,4 +5,8 @@ CHECKS = {
    technique='explicit-state BFS over set_value/evaluate histories on the real compiler, differential oracle',
    text='Every history of evaluate/set_value up to depth 3 (quick) / 4 (thorough) over a 7-9 value alphabet on 16 curated workbooks x 5 model origins (plus ~1000 enumerated workbooks in thorough) is executed on the real ExcelCompiler and each evaluate is compared type-strictly with a from-scratch compile; states deduplicated by canonical key. A coverage statement about all short histories, which is where staleness bugs live.',
    note='Trusts: the from-scratch in-memory compile as oracle; canonical key completeness (fallback: no merging). Bounded depth/alphabet; large workbooks not covered.'),
+ 'C10': dict(engine='E3-bounded-exhaustive', design_ref='5/C10',
+   technique='complete sweep of all operators x all ordered pairs (triples for transitivity) of a 46-value typed pool through the real compiled formulas vs a reference coercion/order table',
+   text='All 14 operators x all ordered pairs of a 46-value pool (every type, sign, numeric-looking text, blank, 7 errors) in cell-reference form, literal form and through a real workbook; order axioms (trichotomy, complements, antisymmetry, transitivity on all triples) checked on the fully tabulated relation. Exhaustive over the pool, so measure-zero type boundaries are hit by construction.',
+   note='Trusts the reference table mc/ref/ops.py (written from the statement); values outside the pool (extreme magnitudes, padded numeric text, text TRUE/FALSE) are judged for totality only.'),
 }
